@@ -414,6 +414,12 @@ def stress_threads(seconds=8, seed=0, nthreads=12, switch=1e-6):
     for a in idxs:
         for j in range(12):
             ref((a, j))
+    # BIP85 requests (they derive under the shared master): reference values from a fresh wallet
+    bip85_reqs = [("wif", (0,)), ("wif", (1,)), ("xprv", (0,)), ("bip39_mnemonic", (12, 0)), ("bip39_mnemonic", (24, 1)),
+                  ("hex", (32, 0)), ("hex", (16, 2)), ("pwd", (21, 0)), ("pwd", (30, 1))]
+    bref = {}
+    for name, args in bip85_reqs:
+        bref[(name, args)] = getattr(PaperWallet.from_bip39_seed_hex(seed_hex).bip85, name)(*args)
     shared = PaperWallet.from_bip39_seed_hex(seed_hex)
     mids = {(a,): shared.master.ckd(a) for a in idxs}
     root_xprv = shared.master.extended_private_key()
@@ -428,8 +434,13 @@ def stress_threads(seconds=8, seed=0, nthreads=12, switch=1e-6):
         gnode = None
         try:
             while time.time() < stop and not errs:
-                op = rng.randrange(5)
-                if op == 0:
+                op = rng.randrange(7)
+                if op >= 5:
+                    name, args = rng.choice(bip85_reqs)
+                    got = getattr(shared.bip85, name)(*args)
+                    if got != bref[(name, args)]:
+                        raise Mismatch("purity", "threads: bip85.%s%r on the shared wallet is not what a fresh wallet returns" % (name, args))
+                elif op == 0:
                     p = rng.choice(paths)
                     n = shared.by_path(path_str(p))
                     if World.fields(n) != ref(p)[0]:
@@ -472,10 +483,11 @@ def stress_threads(seconds=8, seed=0, nthreads=12, switch=1e-6):
     # thread gives up the GIL with some probability, so the windows between "derive", "append to
     # children" and "read children / cursor" are actually hit (free-running threads almost never
     # switch there because a derivation spends its time inside the curve arithmetic).
-    targets = ("bip32.py", "base_wallet.py", "paper_wallet.py")
+    targets = ("bip32.py", "base_wallet.py", "paper_wallet.py", "bip85.py")
     yrng = random.Random(seed)
 
-    hot = ("derive_path", "generate_children", "address_generator", "by_path", "group")
+    hot = ("derive_path", "generate_children", "address_generator", "by_path", "group", "entropy", "bip39_mnemonic", "wif",
+           "xprv", "hex", "pwd")
 
     def local(frame, event, arg):
         if event == "line" and (frame.f_code.co_name in hot or yrng.random() < 0.25):
